@@ -312,6 +312,18 @@ def family_sampled(rng, family, n, cand_range, max_ballots, max_paths=60, ration
                           max_paths=max_paths)
 
 
+def partial_tie_inputs(rng, family, n, rules=None):
+    """inputs whose ties a borda / first_place tiebreak resolves only partially (D.partial_tie_bag)"""
+    out = []
+    for _ in range(n):
+        nc = rng.randint(4, 5)
+        cs = D.ABC[:nc]
+        cfgs = [c for c in family_configs(family, nc) if c["tb"] in ("borda", "first_place", "random") and (rules is None or c["rule"] in rules)]
+        out.append({"cfg": rng.choice(cfgs), "cands": cs, "ballots": D.partial_tie_bag(rng, cs, 2), "mode": "explore", "max_paths": 200,
+                    "seed": rng.randrange(10**6)})
+    return out
+
+
 def add_slow_slice(rng, inputs, k):
     base = list(inputs)
     for inp in rng.sample(base, min(len(base), k)):
